@@ -201,6 +201,20 @@ def lit_specs(tier, seed):
             fr = zlib.crc32((form + body).encode('latin-1')) % FRAMES
             for em in (('unset', 'set', 'empty', 'meta') if '${' in body else ('unset',)):
                 yield [form, body, em, fr]
+    # long literals: the scanner's scratch buffer grows in 32-byte steps and its input buffer is refilled every 8 KiB /
+    # doubled at 16 KiB; lengths are placed around those boundaries, the content mixes plain bytes, escapes and substitutions
+    lrng = core.seeded_rng(seed, 'c03long')
+    lens = list(range(28, 70)) + [95, 96, 97, 127, 128, 129, 255, 256, 257, 1023, 1024, 1025] + \
+        [8180 + k for k in range(0, 24, 3)] + [16370 + k for k in range(0, 30, 3)] + ([32760, 32768, 32770, 65536] if tier == 'thorough' else [32768])
+    pieces = ['a', 'b', 'Z', '0', ' ', 'x', '\\n', '\\t', '\\\\', '\\x41', '\\101', "\\'", '${a}', '${n:-d}', '\t', '#', '/', '*', '{', '}', '=', ',', '\xe9', '\\\n']
+    for n in lens:
+        for rep in range(3 if n < 300 else 1):
+            body = ''
+            while len(body) < n:
+                body += lrng.choice(pieces) if lrng.random() < 0.3 else lrng.choice('abcdefghij klmnop')
+            for form in ('dq', 'sq'):
+                yield [form, body, lrng.choice(['unset', 'set', 'meta']), lrng.randrange(FRAMES)]
+            yield ['uq', ''.join(c for c in body if c.isalnum() or c in './:-_')[:n] or 'w', 'unset', lrng.randrange(FRAMES)]
     rng = core.seeded_rng(seed, 'c03')
     nrand = 40000 if tier == 'quick' else 600000
     weights = CLASSES + ['\\', '\\', '$', '{', '}', '0', '7', 'x']
